@@ -195,6 +195,19 @@ static int op_p_run(void) {
         out_int(ret); if (ret) out_ge(&q); else out_str("-"); return 1;
     }
 #endif
+    if (!strncmp(f, "Pkeys.", 6)) {       /* the public key-tweak functions: same calls and output as the ops of ops_basic.h */
+        int rc = -1; const char *g = f + 6;
+        g_args++; g_argc--;
+        if (!strcmp(g, "ec_seckey_tweak_add")) rc = op_seckey_tweak(0);
+        else if (!strcmp(g, "ec_seckey_tweak_mul")) rc = op_seckey_tweak(1);
+        else if (!strcmp(g, "ec_pubkey_tweak_add")) rc = op_pubkey_tweak(0);
+        else if (!strcmp(g, "ec_pubkey_tweak_mul")) rc = op_pubkey_tweak(1);
+        else if (!strcmp(g, "ec_seckey_negate")) rc = op_seckey_negate();
+        else if (!strcmp(g, "ec_pubkey_negate")) rc = op_pubkey_negate();
+        else { out_str("skip"); rc = 1; }
+        g_args--; g_argc++;
+        return rc;
+    }
 #ifdef ENABLE_MODULE_SCHNORRSIG
     if (!strcmp(f, "Pschnorr.verify")) {
         secp256k1_pubkey pk;
